@@ -314,6 +314,29 @@ static void judge(const Problem& p, const Instance& I, const Result& R, bool plu
             resid(plus ? "PLUS-vs-unique-solution" : "PGS-vs-unique-solution", e / sc, plus ? 1e-8 : 1e-3);
         } else { ++F.n; F.add("harness/no-reference", "brute force found no KKT point for a strictly convex box problem"); }
     }
+    // Frictional problems whose STICK solution is feasible: treat the friction rows of every F/FK contact as unconditional and solve the
+    // box problem; if every contact's friction impulse is then strictly inside its cone, that point satisfies all Coulomb conditions and,
+    // the problem being strictly monotone (A+D positive definite), it is the unique solution.
+    bool fric = false, stickClass = equalities; for (Kind k : p.blocks) { if (k == kF || k == kFK) fric = true; else if (!isBoxKind(k) && k != kFO) stickClass = false; }
+    // PLUS classifies a contact whose START velocity slips faster than the transition speed as Sliding and applies sliding friction
+    // along that direction for the interval (documented in ImpulseSolver.h), so for PLUS the stick solution is the required answer
+    // only if every frictional contact starts at rest tangentially.
+    if (plus && fric) for (size_t b = 0; b < p.blocks.size(); ++b) { const Kind k = p.blocks[b]; if (k != kF && k != kFK) continue; const int r = I.blockRow[b];
+        if (std::hypot(I.verr0[r + 1], I.verr0[r + 2]) > VROLL) stickClass = false; }
+    if (fric && stickClass) {
+        Box bx; bx.lo.assign(m, -INFINITY); bx.hi.assign(m, INFINITY);
+        for (size_t b = 0; b < p.blocks.size(); ++b) { const Kind k = p.blocks[b]; const int r = I.blockRow[b];
+            if (k == kN || k == kS || k == kF) bx.hi[r] = 0; if (k == kNm || k == kSm) bx.lo[r] = 0; if (k == kB) { bx.lo[r] = LB; bx.hi[r] = UB; } if (k == kT) { bx.lo[r] = -MU * KNOWN_N; bx.hi[r] = MU * KNOWN_N; } }
+        DV rhs(m); for (int i = 0; i < m; ++i) { double s = I.verr0[i] + I.applied[i]; for (int j = 0; j < m; ++j) s -= I.A(i, j) * I.piE[j]; s -= I.D[i] * I.piE[i]; rhs[i] = s; }
+        DV ps;
+        if (boxReference(I, Dpi, bx, rhs, ps)) {
+            bool feasible = true;
+            for (size_t b = 0; b < p.blocks.size(); ++b) { const Kind k = p.blocks[b]; if (k != kF && k != kFK) continue; const int r = I.blockRow[b];
+                if (std::hypot(ps[r + 1], ps[r + 2]) > MU * std::fabs(ps[r] + I.piE[r]) - 1e-6) feasible = false; }
+            if (feasible) { double e = 0, sc = 1; for (int i = 0; i < m; ++i) { e = std::max(e, std::fabs(R.pi[i] - ps[i])); sc = std::max(sc, std::fabs(ps[i])); }
+                resid(plus ? "PLUS-vs-feasible-stick-solution" : "PGS-vs-feasible-stick-solution", e / sc, plus ? 1e-8 : 1e-3); }
+        }
+    }
 }
 
 // ---------------------------------------------------------------- enumeration helpers
@@ -414,7 +437,7 @@ int main(int argc, char** argv) {
         else if (!plus) {
             cnt["PGS:solved"]++;
             Fails F; std::vector<RE> res; judge(p, I, R, false, I.D, F, collect(res), R.converged);
-            if (R.converged) { double worst = 0; for (auto& e : res) { std::string n = e.name; if (n.find("-verr") != std::string::npos || n.find("rolling-slip") != std::string::npos || n.find("vs-unique") != std::string::npos) worst = std::max(worst, e.v); }
+            if (R.converged) { double worst = 0; for (auto& e : res) { std::string n = e.name; if (n.find("-verr") != std::string::npos || n.find("rolling-slip") != std::string::npos || n.find("vs-unique") != std::string::npos || n.find("vs-feasible-stick") != std::string::npos) worst = std::max(worst, e.v); }
                 int dec = worst <= 0 ? -17 : (int)std::floor(std::log10(worst)); if (dec < -12) dec = -12; cnt["PGS:worst-equality-residual-decade:1e" + std::to_string(dec) + ":sweeps" + (R.iters <= 2 ? "<=2" : ">2")]++; }
             if (!R.converged) { cnt["PGS:returned-not-converged(equalities-not-demanded)"]++; record(res, F, false); }
             else if (!anyBad(res) && F.v.empty()) record(res, F, false);
@@ -444,6 +467,10 @@ int main(int argc, char** argv) {
                     if (anyBad(res0) || !F0.v.empty()) cnt["PLUS:D-nonzero-case-also-fails-with-D-dropped(see-D=0-twin)"]++;
                     trans += F0.n;
                 } else cnt["PLUS:D-ignored-and-A-singular(not-judged-further)"]++;
+            } else if ([&] { for (auto& e : res) if (std::string(e.name) == "PLUS-vs-feasible-stick-solution" && !(e.v <= e.bound)) return true; return false; }()) {
+                // the exact answer is the stick solution: whatever PLUS did instead is not one of the slip-related defects below
+                cnt["PLUS:differs-from-feasible-stick-solution"]++;
+                record(res, F, false);
             } else if (R.plusErrNorm > 1e-8) {
                 cnt[std::string("PLUS:newton-not-converged:") + firstBad(res, F)]++;
                 viol.emplace_back("PLUS/newton-not-converged", "the Newton iteration of the last sliding interval ended with error norm " + verif::fmtd(R.plusErrNorm) + " (tolerance 1e-10) and the returned impulse fails " + firstBad(res, F));
